@@ -7,27 +7,29 @@ SPEC = dict(
     harnesses=[dict(name="sm", driver="qxdriver_c09")],
     exhaustive=True,
     rule="histories over {send stanza (write ok / write fails), send nonza, sendIq (tracked request), <a h/> with h = last number used (exact), one "
-         "below, one beyond, each also with re-entrant delivery reports (the QXmppTask continuation of every acknowledged packet sends one new "
-         "stanza from inside the report), <r/>, receive message/presence/iq/nonza, IQ result/error for an outstanding request, connection "
-         "lost, reconnect where the scripted server refuses <resume/> (plain <failed/> or <failed h=exact|one below/>) and accepts <enable/>, "
-         "accepts <resume/> with h exact/one below/beyond (also with re-entrant reports), offers no stream management, refuses both, "
-         "resetCache; every reconnect both through the classic post-authentication negotiation (<resume/>, bind, <enable/> as own elements) "
-         "and through SASL2/Bind2 (<resume/> inside <authenticate/>, <resumed/>/<failed/> and <bound><enabled/></bound> inside <success/>)}, "
-         "applied to a real QXmppOutgoingClient (real StreamAckManager, OutgoingIqManager, C2sStreamManager, Sasl2Manager, BindManager, "
-         "XmppSocket; only QSslSocket::writeData is captured; everything received goes through handlePacketReceived). Exhaustive blocks: "
-         "quick = length 5 over 11 symbols, length 5 over the 10 re-entrancy/<failed h/> symbols, length 4 over the 11 SASL2 symbols, length 3 "
-         "over all 31 symbols, every length-5 continuation (9 symbols) of a session holding two stored stanzas; thorough = additionally length 7 "
-         "over 7, length 6 over 9, length 4 over 22, length 5 over the SASL2 symbols, length-5/6 continuations of two prefixes; plus seeded "
-         "random histories of up to 60 symbols over 47 symbols (weighted) including failed writes during every kind of operation. Every op "
-         "line (symbols resolved to numbers and to the ids of the packets whose continuation sends) compares, between the implementation and "
-         "the Lean model, the ordered events of that op (elements written: packet label, r, a<h>, resume<h>; reports: label!sent|ack|ewrite|"
-         "edisc; the bool send returns; the report of a tracked IQ request is consumed by the IQ manager and left out on both sides) and "
-         "enabled()/lastIncomingSequenceNumber(). Oracle (own bookkeeping): <=1 report per packet, exactly one after teardown, acknowledged "
-         "only if covered, covered => confirmed, resent set/order with newer traffic last, nothing written after its report, nothing covered "
-         "by <failed h/> resent, h of <a/>/<resume/> = stanzas received on the session (mod 2^32), an honest server's count = the client's "
-         "numbering. 2^32 wrap: both private counters of the real StreamAckManager are set to 4294967294 (explicit-instantiation access, "
-         "no patch) and driven across the wrap; judged by the oracle only (the model's counters are unbounded). A history is non-trivial when "
-         "it yields >= 2 distinct observations.",
+         "below, one beyond, <r/>, receive message/presence/iq/nonza, IQ result/error for an outstanding request, connection lost, reconnect "
+         "where the scripted server refuses <resume/> (plain <failed/> or <failed h=exact|one below/>) and accepts <enable/>, accepts "
+         "<resume/> with h exact/one below/beyond, offers no stream management, refuses both, resetCache; every report-firing operation "
+         "(<a/>, <resumed/>, <enabled/> after <failed h/>, resetCache) also with re-entrant delivery reports (the QXmppTask continuation of "
+         "every reported packet sends one new stanza from inside the report); every reconnect both through the classic post-authentication "
+         "negotiation (<resume/>, bind, <enable/> as own elements) and through SASL2/Bind2 (<resume/> inside <authenticate/>, <resumed/>/"
+         "<failed/> and <bound><enabled/></bound> inside <success/>)}, applied to a real QXmppOutgoingClient (real StreamAckManager, "
+         "OutgoingIqManager, C2sStreamManager, Sasl2Manager, BindManager, XmppSocket; only QSslSocket::writeData is captured; everything "
+         "received goes through handlePacketReceived). Exhaustive blocks (both tiers): length 5 over 11 symbols, length 5 over the 10 "
+         "re-entrancy/<failed h/>/resetCache symbols, length 4 over the 11 SASL2 symbols, length 3 over all 33 symbols, every length-5 "
+         "continuation (9 symbols) of a session holding two stored stanzas; thorough adds length 6 over 7 symbols and the length-5 / length-4 "
+         "continuations of two more prefixes (total kept under 8M lines because the comparison holds all lines in memory); plus 4000 / 16000 "
+         "seeded random histories of up to 60 symbols over the whole weighted symbol set including failed writes during every kind of "
+         "operation. Every op line (symbols resolved to numbers and to the ids of the packets whose continuation sends) compares, between "
+         "the implementation and the Lean model, the ordered events of that op (elements written: packet label, r, a<h>, resume<h>; reports: "
+         "label!sent|ack|ewrite|edisc; the bool send returns; the report of a tracked IQ request is consumed by the IQ manager and left out "
+         "on both sides) and enabled()/lastIncomingSequenceNumber(). Oracle (own bookkeeping, independent of the model): <=1 report per "
+         "packet, exactly one after teardown, none lost in resetCache, acknowledged only if covered (by <a/>, <resumed/> or <failed h/>), "
+         "covered => confirmed, resent set/order with newer traffic last, nothing written after its report, nothing covered by <failed h/> "
+         "resent, stanzas sent from reports numbered, h of <a/>/<resume/> = stanzas received on the session (mod 2^32), an honest server's "
+         "count = the client's numbering. 2^32 wrap: both private counters of the real StreamAckManager are set to 4294967294 "
+         "(explicit-instantiation access, no patch) and driven across the wrap; judged by the oracle only (the model's counters are "
+         "unbounded). A history is non-trivial when it yields >= 2 distinct observations.",
     trusted_base=[
         "Lean 4.33.0 kernel; axioms per theorem listed under coverage.theorems (subset of propext, Classical.choice, Quot.sound)",
         "hand-written model lean/Qx/Model/C09Sm.lean, tied to src/base/QXmppStreamManagement.cpp and the C2sStreamManager calls in "
@@ -39,24 +41,23 @@ SPEC = dict(
     assumptions=[
         "counters are unbounded in the model; the C++ uses unsigned int: behaviour across 2^32 is outside the model and theorems, it is "
         "probed on the real class by the harness (see rule) and judged by the oracle only",
-        "re-entrancy is modelled to depth one and for 'acknowledged' reports only: the continuation of an acknowledged packet may send one "
-        "stanza; continuations of packets sent from inside a report, of 'disconnected' reports (resetCache) and of immediate reports do not "
-        "send",
+        "re-entrancy: the continuation of a packet reported 'acknowledged' or 'disconnected' may send one stanza (op parameter re, any set "
+        "of ids in the theorems; the harness arms all observable continuations, depth one); continuations of immediate reports "
+        "(sent / write error) and continuations that do anything other than send are not modelled",
         "received elements named message/presence/iq are in the jabber:client namespace (handleStanza looks at the tag name only)",
         "the sequence number the model assigns to a stored packet is the server's count of it, i.e. the transport delivers what was written, "
         "in order, while the connection is up (no server/channel model)",
         "which of <resume/> or <enable/> the client requests on a new connection (canResume logic) is observed, not modelled (C10)",
     ],
-    level_text="Theorems for every history of any length, including re-entrant delivery reports (continuations that send, depth one) at the "
-               "<a/> and <resumed/> sites: unacknowledged keys are consecutive and end at lastOut; no packet is reported twice; every packet is "
-               "either stored or reported; 'acknowledged' only by an operation carrying h, for a packet numbered <= h (stored, or just sent by a "
-               "continuation when h is beyond); <a h/> confirms exactly the stored packets <= h; <enabled/> writes all stored packets in order "
-               "then <r/> and renumbers 1..n; <resumed h/> writes exactly those > h in order then <r/> (proved when no acknowledged packet "
-               "has a sending continuation: _partial); a reported packet is never written again; at the <a/> site stanzas sent by "
-               "continuations are numbered behind everything stored; every written h equals the number of stanzas received on that session. "
-               "Two defect theorems (negations with witnesses): a continuation sending during <resumed/> is written first and not numbered; "
-               "the h of <failed/> is ignored so covered stanzas are resent. The 2^32 wrap is NOT in the model (unbounded counters): it is "
-               "probed on the real class only (inbound wraps correctly, outbound does not: recorded finding).",
+    level_text="Theorems for every history of any length and every set of re-entrant (sending, depth one) report continuations: unacknowledged "
+               "keys are consecutive and end at lastOut; no packet is reported twice; every packet is either stored or reported, nothing is left "
+               "after resetCache; 'acknowledged' only for a stored packet numbered <= an h received in <a/>, <resumed/> or <failed/>; <a h/> "
+               "confirms exactly the stored packets <= h; <resumed h/> / <enabled/> write exactly the stored packets beyond h (and beyond a "
+               "pending <failed/> count) in order, then <r/>, then only packets created by the continuations, and everything they write is "
+               "numbered; a reported packet is never written again; packets covered by <failed h/> are never written again (server not "
+               "lowering its count) and are confirmed; <enabled/> renumbers 1..n; every written h equals the number of stanzas received on "
+               "that session. The 2^32 wrap is NOT in the model (unbounded counters): probed on the real class only (inbound wraps "
+               "correctly, outbound does not: recorded finding).",
     level_note="Proved about the hand-written model; model-to-code tie is differential on a real QXmppOutgoingClient driven by a scripted "
                "server (exhaustive to a depth, sampled beyond). Channel/server behaviour, counter wrap and re-entrant continuations are "
                "assumptions, not theorems.",
